@@ -111,7 +111,7 @@ def _param_sets(rng, n):
     enzymes = ["trypsin", "trypsin", "lys-c", "arg-c", "trypsinp"]
     sets = []
     for _ in range(n):
-        sets.append({"enzyme": rng.choice(enzymes), "digestion": "full", "min_length": rng.choice([5, 6, 7, 7, 8]),
+        sets.append({"enzyme": rng.choice(enzymes), "digestion": "semi" if rng.random() < 0.12 else "full", "min_length": rng.choice([5, 6, 7, 7, 8]),
                      "max_length": rng.choice([14, 22, 60, 60]), "cleavages": rng.choice([0, 0, 1, 2, 2]),
                      "special_aas": rng.choice(["KR", "KR", "K", "none", "R"])})
     flags = {}
@@ -298,6 +298,12 @@ def gen_case(rng, tier, only_inputs=("mq", "perc")):
                     continue
                 for _ in range(rng.choice([1, 1, 1, 2])):
                     rows.append(_row(rng, inp, p, prots, PEP_GRID if target else PEP_GRID[:12]))
+            ps_own = psets[fi] if fi < len(psets) and len(psets) > 1 else psets[0]
+            if ps_own["digestion"] == "semi":  # semi-specific search: ragged ends of fully specific peptides
+                for p in cand[:4]:
+                    q = p[rng.randint(1, 2):] if rng.random() < 0.5 else p[: -rng.randint(1, 2)]
+                    if len(q) >= 5:
+                        rows.append(_row(rng, inp, q, own[p], PEP_GRID))
             for m in others:  # peptides only another file's parameters produce
                 extra = sorted(set(m) - set(own))
                 rng.shuffle(extra)
@@ -888,6 +894,8 @@ def features(case, impl_out):
     if len(kinds) == 2:
         f.append("cli_model:mixed_remap")
     f.append("cli_model:param_sets=%d" % len(case["psets"]))
+    if any(ps["digestion"] == "semi" for ps in case["psets"]):
+        f.append("cli_model:semi_specific")
     for k, v in case["evidence"].items():
         f.append("cli_model:%s_files=%d" % (k, len(v)))
     for k in ("contains_decoys", "gene_level", "use_uniprot"):
